@@ -1489,6 +1489,12 @@ void *factory_copy(void *fh, const uint8_t iv_for_copy[16], const uint8_t iv_for
     return h;
   }
 }
+void factory_loadiv(void *fh, const uint8_t iv[16])
+{
+  FacH *f = (FacH *)fh;
+  memcpy(f->iv, iv, 16);
+  f->f->loadiv(f->iv);
+}
 void factory_free(void *fh)
 {
   FacH *f = (FacH *)fh;
